@@ -435,6 +435,8 @@ type ReadCase struct {
 	SimCatalog bool `json:"sim_catalog,omitempty"`
 	KeepMaxID  bool `json:"keep_max_id,omitempty"`
 	BuildTree  bool `json:"-"`
+	// Cat, when set, is used as is (a shared catalog object of the concurrent scenario) instead of Catalog.
+	Cat ion.Catalog `json:"-"`
 }
 
 // RunRead runs a reader case against ion-go.
@@ -467,7 +469,11 @@ func RunReadSrc(c ReadCase, src *sim.Source, yield func(string)) (out *Outcome) 
 				}
 			}
 		}()
-		r = ion.NewReaderCat(src, BuildCatalog(c.Catalog, c.SimCatalog, yield))
+		cat := c.Cat
+		if cat == nil {
+			cat = BuildCatalog(c.Catalog, c.SimCatalog, yield)
+		}
+		r = ion.NewReaderCat(src, cat)
 		w.r = r
 		nodes := w.level(0, -1)
 		if w.build {
